@@ -318,6 +318,8 @@ LIST_TPL = {
     'multibyte-around-tags': ["日本語", H(1, 'txt'), O('m', RX), "削除", C('m'), "語", H(1, 'txt'), "\né ", O('t', RT), "\nq\n", C('t'), "é\n"],
     # unwrap blocks that cannot be unwrapped because a single (empty) line lies between their tags: not listed, neither Ready nor Pending
     'nonunwrappable-single-empty-line': ["A\n", O('m', PN + ' unwrap-block'), "\n", H(1, 'ind'), "\n", C('m'), "\n", O('t', RT + ' unwrap-block'), "\n\n", C('t'), "\nB\n", O('t', RT), "r", C('t'), H(1, 'txt'), "\n"],
+    # a free byte at the start of lines in front of and inside a region (vertical tab, form feed, ... are ordinary text for the line count)
+    'free-byte-at-line-starts': ["A\n", H(1, 'txt'), "x\n", H(1, 'txt'), "y\n", O('m', RX), "\n", H(1, 'txt'), "r\n", C('m'), "\nB\n", O('t', RT), "z", C('t'), "\n"],
     'leading-line-break': ["\n", H(1, 'ind'), "A\n", O('m', RX), "\nr\n", C('m'), "\nB\n"],
 }
 
